@@ -445,8 +445,284 @@ Proof.
   destruct (f q); cbn [filter]; destruct (listsP q k); cbn [List.length]; lia.
 Qed.
 
+(* ------------------------------------------------------------------ *)
+(* moving one key to the head revision                                 *)
+(* ------------------------------------------------------------------ *)
+
+Definition addf (k : claim_key) (p : prev) : prev :=
+  match k with (g, kd, n) => set_rev p (add_child (pr_rev p) g kd n) end.
+Definition remf (k : claim_key) (p : prev) : prev :=
+  match k with (g, kd, n) => set_rev p (remove_child (pr_rev p) g kd n) end.
+
+(* index 0 gets the key, the indices selected by rem lose it *)
+Definition move_at (k : claim_key) (rem : nat -> bool) (m : nat) (p : prev) : prev :=
+  if Nat.eqb m 0 then addf k p else if rem m then remf k p else p.
+
+Definition moved (k : claim_key) (rem : nat -> bool) (prs prs' : list prev) : Prop :=
+  forall m, nth_error prs' m = option_map (move_at k rem m) (nth_error prs m).
+
+Lemma move_at_other k rem m p k' : k <> k' -> listsP (move_at k rem m p) k' = listsP p k'.
+Proof.
+  intros Hne. destruct k as [[g kd] n]. unfold move_at, addf, remf, listsP, set_rev.
+  destruct (Nat.eqb m 0); cbn [pr_rev]; [apply add_child_other; exact Hne|].
+  destruct (rem m); cbn [pr_rev]; [apply remove_child_other; exact Hne|reflexivity].
+Qed.
+
+Lemma move_at_simple k rem m p : simple (pr_rev p) = true -> simple (pr_rev (move_at k rem m p)) = true.
+Proof.
+  intros Hs. destruct k as [[g kd] n]. unfold move_at, addf, remf, set_rev.
+  destruct (Nat.eqb m 0); cbn [pr_rev]; [apply add_child_simple; exact Hs|].
+  destruct (rem m); cbn [pr_rev]; [apply remove_child_simple; exact Hs|exact Hs].
+Qed.
+
+Lemma move_at_head k rem p : listsP (move_at k rem 0 p) k = true.
+Proof. destruct k as [[g kd] n]. unfold move_at, addf, listsP, set_rev. cbn [Nat.eqb pr_rev]. apply add_child_same. Qed.
+
+Lemma move_at_tail_sub k rem m p : m <> 0 -> listsP (move_at k rem m p) k = true -> listsP p k = true.
+Proof.
+  intros Hm. destruct k as [[g kd] n]. unfold move_at, addf, remf, listsP, set_rev.
+  apply Nat.eqb_neq in Hm. rewrite Hm. destruct (rem m); cbn [pr_rev]; [apply remove_child_sub|auto].
+Qed.
+
+Lemma move_at_tail_removed k rem m p :
+  m <> 0 -> rem m = true -> simple (pr_rev p) = true -> listsP (move_at k rem m p) k = false.
+Proof.
+  intros Hm Hr Hs. destruct k as [[g kd] n]. unfold move_at, addf, remf, listsP, set_rev.
+  apply Nat.eqb_neq in Hm. rewrite Hm, Hr. cbn [pr_rev]. apply remove_child_same. exact Hs.
+Qed.
+
+Lemma moved_bwd k rem prs prs' m p' :
+  moved k rem prs prs' -> nth_error prs' m = Some p' ->
+  exists p, nth_error prs m = Some p /\ p' = move_at k rem m p.
+Proof.
+  intros Hmv Hm. rewrite (Hmv m) in Hm. destruct (nth_error prs m) as [p|]; [|discriminate].
+  injection Hm as <-. eauto.
+Qed.
+
+Lemma moved_excl k rem prs prs' :
+  moved k rem prs prs' ->
+  (forall p, In p prs -> simple (pr_rev p) = true) ->
+  (forall k', excl prs k') ->
+  (forall m p, m <> 0 -> nth_error prs m = Some p -> listsP p k = true -> rem m = true) ->
+  forall k', excl prs' k'.
+Proof.
+  intros Hmv Hs Hex Hrem k' a b pa' pb' Ha Hb La Lb.
+  destruct (moved_bwd _ _ _ _ _ _ Hmv Ha) as (pa & Ha0 & ->).
+  destruct (moved_bwd _ _ _ _ _ _ Hmv Hb) as (pb & Hb0 & ->).
+  destruct (ck_dec k k') as [<-|Hne].
+  - assert (Hz : forall m p, nth_error prs m = Some p -> listsP (move_at k rem m p) k = true -> m = 0).
+    { intros m p Hm Hl. destruct (Nat.eq_dec m 0) as [->|Hm0]; [reflexivity|]. exfalso.
+      pose proof (move_at_tail_sub _ _ _ _ Hm0 Hl) as Hold.
+      pose proof (Hrem m p Hm0 Hm Hold) as Hr.
+      rewrite (move_at_tail_removed k rem m p Hm0 Hr (Hs p (nth_error_In _ _ Hm))) in Hl. discriminate. }
+    rewrite (Hz a pa Ha0 La), (Hz b pb Hb0 Lb). reflexivity.
+  - rewrite move_at_other in La, Lb by exact Hne. eapply Hex; eauto.
+Qed.
+
+Lemma moved_simple k rem prs prs' :
+  moved k rem prs prs' -> (forall p, In p prs -> simple (pr_rev p) = true) ->
+  forall p', In p' prs' -> simple (pr_rev p') = true.
+Proof.
+  intros Hmv Hs p' Hin. apply In_nth_error in Hin. destruct Hin as [m Hm].
+  destruct (moved_bwd _ _ _ _ _ _ Hmv Hm) as (p & Hp & ->).
+  apply move_at_simple. apply Hs. eapply nth_error_In; eauto.
+Qed.
+
+(* the three shapes in which the passes move a key *)
+Lemma moved_add k prs :
+  moved k (fun _ => false) prs (update_nth 0 (addf k) prs).
+Proof.
+  intros m. rewrite update_nth_nth. unfold move_at. destruct (Nat.eqb m 0); [reflexivity|].
+  destruct (nth_error prs m); reflexivity.
+Qed.
+
+Lemma moved_add_rem k i prs :
+  moved k (fun m => Nat.eqb m (S i)) prs (update_nth (S i) (remf k) (update_nth 0 (addf k) prs)).
+Proof.
+  intros m. rewrite !update_nth_nth. unfold move_at.
+  destruct (Nat.eqb m 0) eqn:E0.
+  - apply Nat.eqb_eq in E0. subst m. cbn [Nat.eqb]. reflexivity.
+  - destruct (Nat.eqb m (S i)); destruct (nth_error prs m); reflexivity.
+Qed.
+
+Lemma moved_head_tail k l rest :
+  moved k (fun _ => true) (l :: rest) (addf k l :: map (remf k) rest).
+Proof.
+  intros m. destruct m as [|m]; cbn [nth_error option_map]; [reflexivity|].
+  unfold move_at. cbn [Nat.eqb]. rewrite nth_error_map. reflexivity.
+Qed.
+
+(* ------------------------------------------------------------------ *)
+(* the invariant of the first pass                                     *)
+(* ------------------------------------------------------------------ *)
+
+Record inv (ds : dlist) (prs : list prev) (cl : claims) : Prop := {
+  iv_excl : forall k, excl prs k;
+  iv_claim : forall k j, claimant cl k = Some j -> exists p, nth_error prs j = Some p /\ listsP p k = true;
+  iv_complete : forall p g kd n, In p prs -> listsP p (g, kd, n) = true -> find_desired ds g kd n <> None ->
+                  claimant cl (g, kd, n) <> None;
+  iv_simple : forall p, In p prs -> simple (pr_rev p) = true
+}.
+
+Lemma inv_move ds prs cl k rem prs' :
+  inv ds prs cl -> prs <> [] -> moved k rem prs prs' ->
+  (forall m p, m <> 0 -> nth_error prs m = Some p -> listsP p k = true -> rem m = true) ->
+  inv ds prs' (set_claim cl k 0).
+Proof.
+  intros [Iex Icl Ico Isi] Hne Hmv Hrem. constructor.
+  - eapply moved_excl; eauto.
+  - intros k' j Hk'. destruct (ck_dec k k') as [<-|Hd].
+    + rewrite claimant_set_same in Hk'. injection Hk' as <-.
+      destruct prs as [|p0 rest]; [contradiction|].
+      exists (move_at k rem 0 p0). split; [rewrite (Hmv 0); reflexivity|apply move_at_head].
+    + rewrite claimant_set_other in Hk' by (apply ck_eqb_neq; exact Hd).
+      destruct (Icl k' j Hk') as (p & Hp & Hl).
+      exists (move_at k rem j p). split; [rewrite (Hmv j), Hp; reflexivity|].
+      rewrite move_at_other by exact Hd. exact Hl.
+  - intros p' g kd n Hin Hl Hdes. destruct (ck_dec k (g, kd, n)) as [<-|Hd].
+    + rewrite claimant_set_same. discriminate.
+    + rewrite claimant_set_other by (apply ck_eqb_neq; exact Hd).
+      apply In_nth_error in Hin. destruct Hin as [m Hm].
+      destruct (moved_bwd _ _ _ _ _ _ Hmv Hm) as (p & Hp & ->).
+      rewrite move_at_other in Hl by exact Hd.
+      eapply Ico; eauto. eapply nth_error_In; eauto.
+  - eapply moved_simple; eauto.
+Qed.
+
+Lemma moved_nonempty k rem prs prs' : moved k rem prs prs' -> prs <> [] -> prs' <> [].
+Proof.
+  intros Hmv Hne ->. destruct prs as [|p0 rest]; [contradiction|].
+  specialize (Hmv 0). cbn in Hmv. discriminate.
+Qed.
+
+Definition fp_step (c : ccfg) (pns : string) (observed : umap)
+           (acc : list prev * claims) (e : string * string * string * json) : list prev * claims :=
+  let '(prs0, cl0) := acc in
+  match e with (av, kind, name, desired_child) =>
+    let group := group_of av in
+    if negb (is_rolling c group kind) then acc else
+    match claimant cl0 (group, kind, name) with
+    | None => (update_nth 0 (fun p => set_rev p (add_child (pr_rev p) group kind name)) prs0,
+               set_claim cl0 (group, kind, name) 0)
+    | Some O => acc
+    | Some i =>
+        match find_observed pns observed group kind name with
+        | None => acc
+        | Some child =>
+            match apply_update (obj_map child) (obj_map desired_child) with
+            | Ok n =>
+                if jeqb (JObj n) child then
+                  (update_nth i (fun p => set_rev p (remove_child (pr_rev p) group kind name))
+                     (update_nth 0 (fun p => set_rev p (add_child (pr_rev p) group kind name)) prs0),
+                   set_claim cl0 (group, kind, name) 0)
+                else acc
+            | _ => acc
+            end
+        end
+    end
+  end.
+
+Lemma first_pass_eq c pns observed latest rest cl :
+  first_pass c pns observed (latest :: rest) cl =
+  fold_left (fp_step c pns observed) (pr_desired latest) (latest :: rest, cl).
+Proof. reflexivity. Qed.
+
+Lemma find_desired_in (ds : dlist) av kind name o :
+  In (av, kind, name, o) ds -> find_desired ds (group_of av) kind name <> None.
+Proof.
+  intros Hin. unfold find_desired.
+  match goal with |- context [find ?f ds] => destruct (find f ds) as [[[[a k] n] x]|] eqn:Hf end; [discriminate|].
+  exfalso. eapply find_none in Hf; [|exact Hin]. cbv beta iota in Hf.
+  rewrite !String.eqb_refl in Hf. discriminate.
+Qed.
+
+Lemma fp_step_inv c pns observed ds prs cl e prs' cl' :
+  inv ds prs cl -> prs <> [] -> In e ds ->
+  fp_step c pns observed (prs, cl) e = (prs', cl') ->
+  inv ds prs' cl' /\ prs' <> [].
+Proof.
+  intros Hinv Hne Hin Hs. destruct e as [[[av kind] name] dc]. unfold fp_step in Hs. cbv zeta in Hs.
+  set (k := (group_of av, kind, name)) in *.
+  assert (Hsame : (prs, cl) = (prs', cl') -> inv ds prs' cl' /\ prs' <> []).
+  { intros [= <- <-]. auto. }
+  destruct (negb (is_rolling c (group_of av) kind)); [auto|].
+  destruct (claimant cl k) as [j|] eqn:Hc.
+  - destruct j as [|i]; [auto|].
+    destruct (find_observed pns observed (group_of av) kind name) as [child|]; [|auto].
+    destruct (apply_update (obj_map child) (obj_map dc)) as [n| |]; auto.
+    destruct (jeqb (JObj n) child); [|auto].
+    injection Hs as <- <-.
+    pose proof (moved_add_rem k i prs) as Hmv. unfold k, addf, remf in Hmv.
+    split; [|eapply moved_nonempty; eauto].
+    eapply inv_move; eauto.
+    intros m p Hm0 Hm Hl. apply Nat.eqb_eq.
+    destruct (iv_claim _ _ _ Hinv k (S i) Hc) as (pi & Hpi & Hli).
+    eapply (iv_excl _ _ _ Hinv k); eauto.
+  - injection Hs as <- <-.
+    pose proof (moved_add k prs) as Hmv. unfold k, addf in Hmv.
+    split; [|eapply moved_nonempty; eauto].
+    eapply inv_move; eauto.
+    intros m p Hm0 Hm Hl. exfalso.
+    eapply (iv_complete _ _ _ Hinv p (group_of av) kind name); eauto.
+    + eapply nth_error_In; eauto.
+    + eapply find_desired_in; eauto.
+Qed.
+
+Lemma fp_fold_inv c pns observed ds : forall l prs cl prs' cl',
+  (forall e, In e l -> In e ds) ->
+  inv ds prs cl -> prs <> [] ->
+  fold_left (fp_step c pns observed) l (prs, cl) = (prs', cl') ->
+  inv ds prs' cl' /\ prs' <> [].
+Proof.
+  induction l as [|e l IH]; intros prs cl prs' cl' Hsub Hinv Hne Hf; cbn [fold_left] in Hf.
+  - injection Hf as <- <-. auto.
+  - destruct (fp_step c pns observed (prs, cl) e) as [prs1 cl1] eqn:Hs.
+    destruct (fp_step_inv c pns observed ds prs cl e prs1 cl1 Hinv Hne (Hsub e (or_introl eq_refl)) Hs)
+      as [Hinv1 Hne1].
+    eapply IH; eauto. intros e' Hin. apply Hsub. now right.
+Qed.
+
+(* ------------------------------------------------------------------ *)
+(* the second pass                                                     *)
+(* ------------------------------------------------------------------ *)
+
+Lemma upd_go_id {A} n (f : A -> A) : forall l i, n < i -> upd_go n f i l = l.
+Proof.
+  induction l as [|a l IH]; intros i Hi; cbn [upd_go]; [reflexivity|].
+  assert (E : Nat.eqb i n = false) by (apply Nat.eqb_neq; lia). rewrite E, IH by lia. reflexivity.
+Qed.
+
+Lemma update_nth_0 {A} (f : A -> A) a l : update_nth 0 f (a :: l) = f a :: l.
+Proof. rewrite update_nth_eq. cbn [upd_go Nat.eqb]. rewrite upd_go_id by lia. reflexivity. Qed.
+
+Lemma second_pass_shape c pns observed latest rest cl prs' st :
+  second_pass c pns observed (latest :: rest) cl = (prs', st) ->
+  prs' = latest :: rest \/ exists k, prs' = addf k latest :: map (remf k) rest.
+Proof.
+  unfold second_pass.
+  match goal with |- context [find ?f ?l] => destruct (find f l) as [[o|]|] end;
+    try (intros [= <- <-]; left; reflexivity).
+  destruct (should_continue_rolling c pns latest observed); [intros [= <- <-]; left; reflexivity|].
+  intros [= <- <-]. right. exists (group_of (get_api_version o), get_kind o, relative_name pns o).
+  rewrite map_id. rewrite update_nth_0. reflexivity.
+Qed.
+
+Lemma second_pass_excl c pns observed prs cl prs' st :
+  second_pass c pns observed prs cl = (prs', st) ->
+  (forall p, In p prs -> simple (pr_rev p) = true) ->
+  (forall k, excl prs k) ->
+  forall k, excl prs' k.
+Proof.
+  intros Hs Hsi Hex. destruct prs as [|latest rest].
+  - cbn in Hs. injection Hs as <- <-. exact Hex.
+  - apply second_pass_shape in Hs. destruct Hs as [->|(k & ->)]; [exact Hex|].
+    eapply moved_excl; [apply moved_head_tail|exact Hsi|exact Hex|reflexivity].
+Qed.
+
 Print Assumptions add_child_same.
 Print Assumptions add_child_other.
 Print Assumptions remove_child_same.
 Print Assumptions update_nth_nth.
 Print Assumptions excl_of_count.
+Print Assumptions fp_fold_inv.
+Print Assumptions second_pass_excl.
